@@ -147,6 +147,7 @@ def scenarios(tier):
         out.append((f'{T.__name__}{U.__name__}:diamond', [top], []))
         out.append((f'{T.__name__}{U.__name__}:req-dep+dependent', [d2, t2, t1], []))
         out.append((f'{T.__name__}{U.__name__}:dup-instances', [T('x', (U('d1'), U('d1')))], []))
+        out.append((f'{T.__name__}{U.__name__}:dup-instances-unread', [T('x', (U('d1'), U('d1')), 'ignore')], []))
         out.append((f'{T.__name__}{U.__name__}:flat3', [U('d1'), U('d2'), U('d3')], []))
     # failures
     for T in (A, K):
@@ -154,6 +155,9 @@ def scenarios(tier):
         ok = T('ok')
         out.append((f'{T.__name__}:fail-leaf', [T('dep', (bad, ok)), T('ign', (bad, ok), 'ignore'), ok], []))
         out.append((f'{T.__name__}:exit-leaf', [T('dep', (T('bad', (), 'exit'), ok)), ok], []))
+    # failures of a max_parallel-limited type with more work of that type pending
+    out.append(('B:limited-type-failure', [B('bad', (), 'fail'), B('ok1'), B('ok2'), A('free')], []))
+    out.append(('B:limited-type-failure-dep', [B('t', (B('bad', (), 'fail'),)), B('ok1')], []))
     # warm caches (only K is cacheable)
     d1, d2 = K('d1'), K('d2')
     t1 = K('t1', (d1, d2))
